@@ -1,4 +1,15 @@
 
+(** val implb : bool -> bool -> bool **)
+
+let implb b1 b2 =
+  if b1 then b2 else true
+
+(** val negb : bool -> bool **)
+
+let negb = function
+| true -> false
+| false -> true
+
 type nat =
 | O
 | S of nat
@@ -54,7 +65,31 @@ module Nat =
     | S n' -> (match m with
                | O -> false
                | S m' -> eqb n' m')
+
+  (** val leb : nat -> nat -> bool **)
+
+  let rec leb n0 m =
+    match n0 with
+    | O -> true
+    | S n' -> (match m with
+               | O -> false
+               | S m' -> leb n' m')
+
+  (** val ltb : nat -> nat -> bool **)
+
+  let ltb n0 m =
+    leb (S n0) m
  end
+
+(** val nth_error : 'a1 list -> nat -> 'a1 option **)
+
+let rec nth_error l = function
+| O -> (match l with
+        | [] -> None
+        | x :: _ -> Some x)
+| S n1 -> (match l with
+           | [] -> None
+           | _ :: l0 -> nth_error l0 n1)
 
 (** val rev : 'a1 list -> 'a1 list **)
 
@@ -62,11 +97,29 @@ let rec rev = function
 | [] -> []
 | x :: l' -> app (rev l') (x :: [])
 
+(** val map : ('a1 -> 'a2) -> 'a1 list -> 'a2 list **)
+
+let rec map f = function
+| [] -> []
+| a :: t -> (f a) :: (map f t)
+
+(** val forallb : ('a1 -> bool) -> 'a1 list -> bool **)
+
+let rec forallb f = function
+| [] -> true
+| a :: l0 -> (&&) (f a) (forallb f l0)
+
 (** val filter : ('a1 -> bool) -> 'a1 list -> 'a1 list **)
 
 let rec filter f = function
 | [] -> []
 | x :: l0 -> if f x then x :: (filter f l0) else filter f l0
+
+(** val repeat : 'a1 -> nat -> 'a1 list **)
+
+let rec repeat x = function
+| O -> []
+| S k -> x :: (repeat x k)
 
 (** val ex_keep :
     (((((nat * n) * z) * z list) * z option) * positive) * bool **)
@@ -355,3 +408,478 @@ let throw_as_resume e = match e with
 | (e0, f) -> (match e0 with
               | KThrow -> (KResume, f)
               | _ -> e)
+
+type fkind =
+| KFunc of bool
+| KGen of bool * bool
+
+type stmt =
+| SExpr
+| SRaise
+| SReturn
+| SYield
+| SIf of block * block
+| SLoop of block * block
+| STry of block * block
+| SFin of block * block
+and block =
+| BNil
+| BCons of stmt * block
+
+type func = { f_kind : fkind; f_body : block; f_tflag : bool }
+
+(** val is_term_s : stmt -> bool **)
+
+let rec is_term_s = function
+| SExpr -> false
+| SYield -> false
+| SIf (a, b) -> (&&) (is_term a) (is_term b)
+| SLoop (_, els) -> is_term els
+| STry (body, h) -> (&&) (is_term body) (is_term h)
+| SFin (body, fin) -> (||) (is_term body) (is_term fin)
+| _ -> true
+
+(** val is_term : block -> bool **)
+
+and is_term = function
+| BNil -> false
+| BCons (s, r) -> (||) (is_term_s s) (is_term r)
+
+(** val clean_s : nat -> stmt -> bool **)
+
+let rec clean_s d = function
+| SReturn -> Nat.eqb d O
+| SIf (a, b) -> (&&) (clean_b d a) (clean_b d b)
+| SLoop (body, els) -> (&&) (clean_b d body) (clean_b d els)
+| STry (body, h) -> (&&) (clean_b d body) (clean_b d h)
+| SFin (body, fin) -> (&&) (clean_b (S d) body) (clean_b d fin)
+| _ -> true
+
+(** val clean_b : nat -> block -> bool **)
+
+and clean_b d = function
+| BNil -> true
+| BCons (s, r) -> (&&) (clean_s d s) (clean_b d r)
+
+type choice = { c_kids : nat; c_go : bool; c_exc : bool option }
+
+type outcome =
+| ONormal
+| OReturn of bool
+| ORaise of bool
+| OAbandon
+| OStuck
+
+type tok =
+| TStart of skind
+| TKid
+| TLine
+| TRet
+| TYield
+| TUnwind
+
+(** val call_part : choice -> tok list **)
+
+let call_part c =
+  repeat TKid c.c_kids
+
+(** val is_stop : outcome -> bool **)
+
+let is_stop = function
+| OAbandon -> true
+| OStuck -> true
+| _ -> false
+
+(** val exec_s :
+    bool -> bool -> nat -> nat -> stmt -> choice list -> (tok
+    list * outcome) * choice list **)
+
+let rec exec_s fx gen n0 d s o =
+  match n0 with
+  | O -> (([], OStuck), o)
+  | S n' ->
+    (match s with
+     | SExpr ->
+       (match o with
+        | [] -> (((TLine :: []), OStuck), [])
+        | c :: o' ->
+          (((TLine :: (call_part c)),
+            (match c.c_exc with
+             | Some k -> ORaise k
+             | None -> ONormal)), o'))
+     | SRaise -> (((TLine :: []), (ORaise true)), o)
+     | SReturn ->
+       if Nat.eqb d O
+       then (((TLine :: (TRet :: [])), (OReturn false)), o)
+       else if fx
+            then (((TLine :: []), (OReturn true)), o)
+            else (((TLine :: (TRet :: [])), (OReturn true)), o)
+     | SYield ->
+       if gen
+       then (match o with
+             | [] -> (((TLine :: (TYield :: [])), OAbandon), [])
+             | c :: o' ->
+               if c.c_go
+               then (match c.c_exc with
+                     | Some k ->
+                       (((TLine :: (TYield :: ((TStart SThrow) :: []))),
+                         (ORaise k)), o')
+                     | None ->
+                       (((TLine :: (TYield :: ((TStart SResume) :: []))),
+                         ONormal), o'))
+               else (((TLine :: (TYield :: [])), OAbandon), o'))
+       else (((TLine :: []), OStuck), o)
+     | SIf (a, b) ->
+       (match o with
+        | [] -> (((TLine :: []), OStuck), [])
+        | c :: o' ->
+          (match c.c_exc with
+           | Some k -> (((TLine :: (call_part c)), (ORaise k)), o')
+           | None ->
+             let (p, o2) = exec_b fx gen n' d (if c.c_go then a else b) o' in
+             let (t, out) = p in (((TLine :: (app (call_part c) t)), out), o2)))
+     | SLoop (body, els) ->
+       let (p, o2) = exec_l fx gen n' d body els o in
+       let (t, out) = p in (((TLine :: t), out), o2)
+     | STry (body, h) ->
+       let (p, r1) = exec_b fx gen n' d body o in
+       let (t1, o1) = p in
+       (match o1 with
+        | ORaise catchable ->
+          if catchable
+          then let (p0, r2) = exec_b fx gen n' d h r1 in
+               let (t2, o2) = p0 in (((TLine :: (app t1 t2)), o2), r2)
+          else (((TLine :: t1), o1), r1)
+        | _ -> (((TLine :: t1), o1), r1))
+     | SFin (body, fin) ->
+       let (p, r1) = exec_b fx gen n' (S d) body o in
+       let (t1, o1) = p in
+       if is_stop o1
+       then (((TLine :: t1), o1), r1)
+       else let (p0, r2) = exec_b fx gen n' d fin r1 in
+            let (t2, o2) = p0 in
+            (((TLine :: (app t1 t2)),
+            (match o2 with
+             | ONormal -> o1
+             | _ -> o2)), r2))
+
+(** val exec_b :
+    bool -> bool -> nat -> nat -> block -> choice list -> (tok
+    list * outcome) * choice list **)
+
+and exec_b fx gen n0 d b o =
+  match n0 with
+  | O -> (([], OStuck), o)
+  | S n' ->
+    (match b with
+     | BNil -> (([], ONormal), o)
+     | BCons (s, r) ->
+       let (p, r1) = exec_s fx gen n' d s o in
+       let (t1, o1) = p in
+       (match o1 with
+        | ONormal ->
+          let (p0, r2) = exec_b fx gen n' d r r1 in
+          let (t2, o2) = p0 in (((app t1 t2), o2), r2)
+        | _ -> ((t1, o1), r1)))
+
+(** val exec_l :
+    bool -> bool -> nat -> nat -> block -> block -> choice list -> (tok
+    list * outcome) * choice list **)
+
+and exec_l fx gen n0 d body els o =
+  match n0 with
+  | O -> (([], OStuck), o)
+  | S n' ->
+    (match o with
+     | [] -> (([], OStuck), [])
+     | c :: o' ->
+       (match c.c_exc with
+        | Some k -> (((call_part c), (ORaise k)), o')
+        | None ->
+          if c.c_go
+          then let (p, r1) = exec_b fx gen n' d body o' in
+               let (t1, o1) = p in
+               (match o1 with
+                | ONormal ->
+                  let (p0, r2) = exec_l fx gen n' d body els r1 in
+                  let (t2, o2) = p0 in
+                  (((app (call_part c) (app t1 t2)), o2), r2)
+                | _ -> (((app (call_part c) t1), o1), r1))
+          else let (p, r) = exec_b fx gen n' d els o' in
+               let (t, out) = p in (((app (call_part c) t), out), r)))
+
+(** val falloff : (fkind -> bool) -> fkind -> bool -> tok list **)
+
+let falloff g k tflag =
+  if (&&) (g k) (negb tflag) then TRet :: [] else []
+
+(** val finish :
+    (fkind -> bool) -> bool -> fkind -> bool -> outcome -> tok list **)
+
+let finish g fx k tflag = function
+| ONormal -> falloff g k tflag
+| OReturn p -> if (&&) fx p then TRet :: [] else []
+| ORaise _ -> TUnwind :: []
+| _ -> []
+
+(** val gen_allowed : fkind -> bool **)
+
+let gen_allowed = function
+| KFunc _ -> false
+| KGen (i, _) -> negb i
+
+(** val run :
+    (fkind -> bool) -> bool -> func -> nat -> choice list -> tok
+    list * outcome **)
+
+let run g fx fn n0 o =
+  let k = fn.f_kind in
+  (match k with
+   | KFunc _ ->
+     let (p, _) = exec_b fx false n0 O fn.f_body o in
+     let (t, out) = p in
+     (((TStart SCall) :: (app t (finish g fx k fn.f_tflag out))), out)
+   | KGen (_, _) ->
+     (match o with
+      | [] -> ([], OStuck)
+      | c :: o' ->
+        (match c.c_exc with
+         | Some kx ->
+           (((TStart SCloseUnstarted) :: (TUnwind :: [])), (ORaise kx))
+         | None ->
+           let (p, _) = exec_b fx (gen_allowed k) n0 O fn.f_body o' in
+           let (t, out) = p in
+           (((TStart SGenStart) :: (app t (finish g fx k fn.f_tflag out))),
+           out))))
+
+(** val default_branch : tok list **)
+
+let default_branch =
+  (TStart SGenStart) :: (TRet :: [])
+
+type etok =
+| EMark
+| EFall
+| EGotoRet
+| EErrLabel
+| EIfExc
+| EExc
+| EUnw
+
+(** val epilogue : (fkind -> bool) -> fkind -> bool -> etok list **)
+
+let epilogue g k tflag =
+  let fall = map (fun _ -> EFall) (falloff g k tflag) in
+  let skip = if tflag then [] else EGotoRet :: [] in
+  (match k with
+   | KFunc _ ->
+     app (EMark :: [])
+       (app fall (app skip (EErrLabel :: (EExc :: (EUnw :: [])))))
+   | KGen (_, _) ->
+     app fall
+       (app (EMark :: [])
+         (app skip (EErrLabel :: (EIfExc :: (EExc :: (EUnw :: [])))))))
+
+(** val take_seg : tok list -> tok list **)
+
+let rec take_seg = function
+| [] -> []
+| t :: r -> (match t with
+             | TYield -> TYield :: []
+             | _ -> t :: (take_seg r))
+
+(** val drop_seg : tok list -> tok list **)
+
+let rec drop_seg = function
+| [] -> []
+| t :: r -> (match t with
+             | TYield -> r
+             | _ -> drop_seg r)
+
+(** val drop_segs : nat -> tok list -> tok list **)
+
+let rec drop_segs k l =
+  match k with
+  | O -> l
+  | S k' -> drop_segs k' (drop_seg l)
+
+(** val seg_at : nat -> tok list -> tok list **)
+
+let seg_at k l =
+  take_seg (drop_segs k l)
+
+(** val count_yield : tok list -> nat **)
+
+let rec count_yield = function
+| [] -> O
+| t :: r -> (match t with
+             | TYield -> S (count_yield r)
+             | _ -> count_yield r)
+
+(** val final : outcome -> bool **)
+
+let final = function
+| OAbandon -> false
+| OStuck -> false
+| _ -> true
+
+(** val complete_seg : nat -> tok list -> outcome -> bool **)
+
+let complete_seg k toks out =
+  (||) (Nat.ltb k (count_yield toks))
+    ((&&) (Nat.eqb k (count_yield toks)) (final out))
+
+type xt =
+| XT of nat * choice list * nat * nat * xts
+and xts =
+| XNil
+| XCons of xt * xts
+
+(** val tok_events : tool -> bool -> nat -> tok -> event list **)
+
+let tok_events t lt f = function
+| TStart s -> start_cy t s f
+| TKid -> []
+| TLine -> line_ev lt O f
+| TRet -> end_ev t EReturn f
+| TYield -> end_ev t EYield f
+| TUnwind -> end_ev t ERaise f
+
+(** val expand :
+    tool -> bool -> nat -> tok list -> event list list -> event list **)
+
+let rec expand t lt f seg kids =
+  match seg with
+  | [] -> []
+  | k :: r ->
+    (match k with
+     | TKid ->
+       (match kids with
+        | [] -> expand t lt f r []
+        | w :: ks -> app w (expand t lt f r ks))
+     | _ -> app (tok_events t lt f k) (expand t lt f r kids))
+
+(** val seg_of :
+    (fkind -> bool) -> bool -> func list -> nat -> choice list -> nat -> nat
+    -> tok list **)
+
+let seg_of g fx prog f o fuel k =
+  match nth_error prog f with
+  | Some fn -> seg_at k (fst (run g fx fn fuel o))
+  | None -> []
+
+(** val word :
+    (fkind -> bool) -> bool -> tool -> bool -> func list -> xt -> event list **)
+
+let rec word g fx t lt prog = function
+| XT (f, o, fuel, k, kids) ->
+  expand t lt f (seg_of g fx prog f o fuel k) (words g fx t lt prog kids)
+
+(** val words :
+    (fkind -> bool) -> bool -> tool -> bool -> func list -> xts -> event list
+    list **)
+
+and words g fx t lt prog = function
+| XNil -> []
+| XCons (x, r) -> (word g fx t lt prog x) :: (words g fx t lt prog r)
+
+(** val mids : tok list -> node list -> (items * ekind) option **)
+
+let rec mids r kids =
+  match r with
+  | [] -> None
+  | t :: r' ->
+    (match t with
+     | TStart _ -> None
+     | TKid ->
+       (match kids with
+        | [] -> mids r' []
+        | n0 :: ks ->
+          (match mids r' ks with
+           | Some p -> let (b, e) = p in Some ((ICall (n0, b)), e)
+           | None -> None))
+     | TLine ->
+       (match mids r' kids with
+        | Some p -> let (b, e) = p in Some ((ILine (O, b)), e)
+        | None -> None)
+     | TRet -> (match r' with
+                | [] -> Some (INil, EReturn)
+                | _ :: _ -> None)
+     | TYield -> (match r' with
+                  | [] -> Some (INil, EYield)
+                  | _ :: _ -> None)
+     | TUnwind -> (match r' with
+                   | [] -> Some (INil, ERaise)
+                   | _ :: _ -> None))
+
+(** val seg_node : nat -> tok list -> node list -> node option **)
+
+let seg_node f seg kids =
+  match seg with
+  | [] -> None
+  | t :: r ->
+    (match t with
+     | TStart s ->
+       (match mids r kids with
+        | Some p -> let (b, e) = p in Some (Node (f, s, b, e))
+        | None -> None)
+     | _ -> None)
+
+(** val to_node :
+    (fkind -> bool) -> bool -> func list -> xt -> node option **)
+
+let rec to_node g fx prog = function
+| XT (f, o, fuel, k, kids) ->
+  (match to_nodes g fx prog kids with
+   | Some ns -> seg_node f (seg_of g fx prog f o fuel k) ns
+   | None -> None)
+
+(** val to_nodes :
+    (fkind -> bool) -> bool -> func list -> xts -> node list option **)
+
+and to_nodes g fx prog = function
+| XNil -> Some []
+| XCons (x, r) ->
+  (match to_node g fx prog x with
+   | Some n0 ->
+     (match to_nodes g fx prog r with
+      | Some ns -> Some (n0 :: ns)
+      | None -> None)
+   | None -> None)
+
+(** val complete : (fkind -> bool) -> bool -> func list -> xt -> bool **)
+
+let rec complete g fx prog = function
+| XT (f, o, fuel, k, kids) ->
+  (&&)
+    (match nth_error prog f with
+     | Some fn ->
+       let (toks, out) = run g fx fn fuel o in complete_seg k toks out
+     | None -> false) (completes g fx prog kids)
+
+(** val completes : (fkind -> bool) -> bool -> func list -> xts -> bool **)
+
+and completes g fx prog = function
+| XNil -> true
+| XCons (x, r) -> (&&) (complete g fx prog x) (completes g fx prog r)
+
+(** val func_ok : bool -> func -> bool **)
+
+let func_ok fx fn =
+  (&&) (implb fn.f_tflag (is_term fn.f_body)) ((||) fx (clean_b O fn.f_body))
+
+(** val prog_ok : bool -> func list -> bool **)
+
+let prog_ok fx prog =
+  forallb (func_ok fx) prog
+
+(** val all_true : fkind -> bool **)
+
+let all_true _ =
+  true
+
+(** val g_not_inlined : fkind -> bool **)
+
+let g_not_inlined = function
+| KFunc _ -> true
+| KGen (inlined, _) -> if inlined then false else true
